@@ -10,22 +10,22 @@ pub fn bad<T>(tag: impl Into<String>, detail: impl Into<String>) -> Result<T, (S
     Err((tag.into(), detail.into()))
 }
 
-/// What flate2's MultiGzDecoder delivers from `w`: up to `want` bytes, and the error kind it stops
-/// with ("UnexpectedEof" for Ok(0), as Read::read_exact reports it).  When `want` bytes were
-/// delivered the stop is not reached and is reported as "UnexpectedEof".
+/// What flate2's MultiGzDecoder delivers from `w`: up to `want` bytes, and how it stops: "Eof" for a
+/// clean end (read returns Ok(0)), else the error kind.  When `want` bytes were delivered the stop
+/// is not reached and is reported as "Eof".
 pub fn gz_oracle(w: &[u8], want: usize) -> (Vec<u8>, String) {
     let mut d = flate2::bufread::MultiGzDecoder::new(w);
     let mut out = Vec::new();
     let mut b = [0u8; 1];
     while out.len() < want {
         match d.read(&mut b) {
-            Ok(0) => return (out, "UnexpectedEof".into()),
+            Ok(0) => return (out, "Eof".into()),
             Ok(_) => out.push(b[0]),
             Err(e) if e.kind() == io::ErrorKind::Interrupted => continue,
             Err(e) => return (out, nv::errkind(&e)),
         }
     }
-    (out, "UnexpectedEof".into())
+    (out, "Eof".into())
 }
 
 /// A source over `data`:
